@@ -101,6 +101,7 @@ type pathState struct {
 	observes  []obsRec
 	eqs       map[*Term]uint64
 	lits      map[*Term]bool
+	ufApps    map[string][][2]*Term
 	varCount  map[string]int
 	forks     int
 	decisions []int
